@@ -9,7 +9,7 @@ package connstate
 //@ specfunc cstatus(s *State, h core.InfoHash, p core.PeerID) status = s.conns[h][p].status
 //@ specfunc cconn(s *State, h core.InfoHash, p core.PeerID) *conn.Conn = s.conns[h][p].conn
 //@ specfunc cshape(s *State) bool = s != nil && s.conns != nil && s.config.MaxOpenConnectionsPerTorrent >= 1
-//@ specfunc cinner(s *State) bool = forall h core.InfoHash :: h in s.conns ==> s.conns[h] != nil && allocated(s.conns[h]) && len(s.conns[h]) >= 1 && len(s.conns[h]) <= s.config.MaxOpenConnectionsPerTorrent
+//@ specfunc cinner(s *State) bool = forall h core.InfoHash :: h in s.conns ==> s.conns[h] != nil && allocated(s.conns[h]) && typed(s.conns[h]) && len(s.conns[h]) >= 1 && len(s.conns[h]) <= s.config.MaxOpenConnectionsPerTorrent
 //@ specfunc cstates(s *State) bool = forall h core.InfoHash, p core.PeerID :: h in s.conns && p in s.conns[h] ==> (s.conns[h][p].status == _pending || s.conns[h][p].status == _active) && (s.conns[h][p].status == _active ==> s.conns[h][p].conn != nil)
 //@ specfunc cdistinct(s *State) bool = forall h1 core.InfoHash, h2 core.InfoHash :: h1 in s.conns && h2 in s.conns && h1 != h2 ==> s.conns[h1] != s.conns[h2]
 //@ specfunc cinv(s *State) bool = cshape(s) && cinner(s) && cstates(s) && cdistinct(s)
@@ -17,7 +17,7 @@ package connstate
 
 //@ func State.AddPending
 //@   requires cinv(s)
-//@   modifies *
+//@   modifies allmaps map[core.InfoHash]map[core.PeerID]entry, allmaps map[core.PeerID]entry
 //@   ensures inv_inner: cshape(s) && cinner(s)
 //@   ensures inv_states: cstates(s)
 //@   ensures inv_distinct: cdistinct(s)
@@ -29,6 +29,9 @@ package connstate
 //@   ensures refused_full: old(len(s.conns[h])) == s.config.MaxOpenConnectionsPerTorrent ==> result == ErrTorrentAtCapacity
 //@   ensures unchanged_on_error: result != nil ==> (forall h2 core.InfoHash, p2 core.PeerID :: csame(s, h2, p2))
 //@   ensures others: forall h2 core.InfoHash, p2 core.PeerID :: h2 != h || p2 != peerID ==> csame(s, h2, p2)
+//@   ensures refused_mutual: old(len(s.conns[h])) != s.config.MaxOpenConnectionsPerTorrent && old(cstatus(s, h, peerID)) == _uninit && len(neighbors) > s.config.MaxMutualConnections && (forall j int :: 0 <= j && j < len(neighbors) ==> old(connected(s, h, neighbors[j]))) ==> result == ErrTooManyMutualConns
+//@   ensures mutual_within_limit: (len(neighbors) <= s.config.MaxMutualConnections || (s.config.MaxMutualConnections >= 0 && (forall j int :: 0 <= j && j < len(neighbors) ==> !old(connected(s, h, neighbors[j]))))) ==> result != ErrTooManyMutualConns
+//@   ensures blacklist_untouched: s.blacklist == old(s.blacklist) && s.clk == old(s.clk) && s.clk.now == old(s.clk.now) && (forall h2 core.InfoHash, p2 core.PeerID :: blsame(s, h2, p2))
 
 //@ func State.DeletePending
 //@   requires cinv(s)
@@ -62,7 +65,61 @@ package connstate
 //@   ensures not_for_other_conn: !(old(cstatus(s, c.infoHash, c.peerID)) == _active && old(cconn(s, c.infoHash, c.peerID)) == c) ==> csame(s, c.infoHash, c.peerID)
 //@   ensures others: forall h2 core.InfoHash, p2 core.PeerID :: h2 != c.infoHash || p2 != c.peerID ==> csame(s, h2, p2)
 
+// numMutualConns counts the neighbours with a pending or active connection for h. The count is
+// pinned at both ends (the exact count in between would need a recursive spec function): it is
+// len(neighbors) when every neighbour is connected and 0 when none is.
+//@ specfunc connected(s *State, h core.InfoHash, p core.PeerID) bool = cstatus(s, h, p) == _pending || cstatus(s, h, p) == _active
 //@ func State.numMutualConns
 //@   requires cinv(s)
 //@   ensures bounds: 0 <= result && result <= len(neighbors)
+//@   ensures all_connected: (forall j int :: 0 <= j && j < len(neighbors) ==> connected(s, h, neighbors[j])) ==> result == len(neighbors)
+//@   ensures none_connected: (forall j int :: 0 <= j && j < len(neighbors) ==> !connected(s, h, neighbors[j])) ==> result == 0
 //@   loop 0 invariant count: 0 <= n && n <= rangeindex + 1 && rangeindex + 1 <= len(neighbors)
+//@   loop 0 invariant all_so_far: (forall j int :: 0 <= j && j <= rangeindex ==> connected(s, h, neighbors[j])) ==> n == rangeindex + 1
+//@   loop 0 invariant none_so_far: (forall j int :: 0 <= j && j <= rangeindex ==> !connected(s, h, neighbors[j])) ==> n == 0
+
+// ---- blacklist ---------------------------------------------------------------------------------
+// View: the partial function (torrent, peer) -> expiry time given by s.blacklist; (h, p) is
+// blacklisted at clock reading t iff it has an entry whose expiry is later than t. Times are the
+// integer nanoseconds of contracts/externs/time_clock.spec.
+//@ specfunc blin(s *State, h core.InfoHash, p core.PeerID) bool = mk(connKey, h, p) in s.blacklist
+//@ specfunc blexp(s *State, h core.InfoHash, p core.PeerID) time.Time = s.blacklist[mk(connKey, h, p)].expiration
+//@ specfunc blisted(s *State, h core.InfoHash, p core.PeerID) bool = blin(s, h, p) && blexp(s, h, p) > s.clk.now
+//@ specfunc blok(s *State) bool = s != nil && s.clk != nil && s.blacklist != nil && (forall h core.InfoHash, p core.PeerID :: blin(s, h, p) ==> s.blacklist[mk(connKey, h, p)] != nil && allocated(s.blacklist[mk(connKey, h, p)]))
+//@ specfunc blsame(s *State, h core.InfoHash, p core.PeerID) bool = (blin(s, h, p) <==> old(blin(s, h, p))) && (blin(s, h, p) ==> s.blacklist[mk(connKey, h, p)] == old(s.blacklist[mk(connKey, h, p)]) && blexp(s, h, p) == old(blexp(s, h, p)))
+
+//@ func blacklistEntry.Remaining
+//@   requires e != nil
+//@   ensures result == e.expiration - now
+
+//@ func blacklistEntry.Blacklisted
+//@   requires e != nil
+//@   ensures result <==> e.expiration > now
+
+// Blacklisted reads the clock and answers for that reading.
+//@ func State.Blacklisted
+//@   requires blok(s)
+//@   modifies s.clk.now
+//@   ensures answer: result <==> blisted(s, h, peerID)
+
+// Blacklist: a peer that is still blacklisted keeps its entry (the call fails); otherwise the new
+// entry expires BlacklistDuration after the clock reading taken for it. No other entry changes.
+//@ func State.Blacklist
+//@   requires blok(s) && s.config.BlacklistDuration >= 0
+//@   modifies *
+//@   ensures inv: blok(s)
+//@   ensures listed: result == nil && !s.config.DisableBlacklist ==> blin(s, h, peerID) && blexp(s, h, peerID) == s.clk.now + s.config.BlacklistDuration
+//@   ensures kept_on_error: result != nil ==> blsame(s, h, peerID) && blisted(s, h, peerID)
+//@   ensures disabled: s.config.DisableBlacklist ==> result == nil && blsame(s, h, peerID)
+//@   ensures others: forall h2 core.InfoHash, p2 core.PeerID :: h2 != h || p2 != peerID ==> blsame(s, h2, p2)
+
+// ClearBlacklist removes exactly the entries of torrent h.
+//@ func State.ClearBlacklist
+//@   requires blok(s)
+//@   modifies map s.blacklist
+//@   ensures inv: blok(s)
+//@   ensures cleared: forall p core.PeerID :: !blin(s, h, p)
+//@   ensures others: forall h2 core.InfoHash, p2 core.PeerID :: h2 != h ==> blsame(s, h2, p2)
+//@   loop 0 invariant inv: blok(s)
+//@   loop 0 invariant cleared: forall p core.PeerID :: seen0(mk(connKey, h, p)) ==> !blin(s, h, p)
+//@   loop 0 invariant kept: forall h2 core.InfoHash, p2 core.PeerID :: (h2 != h ==> blsame(s, h2, p2)) && (blin(s, h2, p2) ==> old(blin(s, h2, p2)))
